@@ -25,6 +25,9 @@ def main():
             models.floats_as_reals()
         jobs = {j.id: j for j in mod.jobs(tier)}
         job = jobs[job_id]
+        if getattr(job, 'ieee', False):
+            models.floats_as_reals()
+            models.ieee_rounding()
         scale = float(os.environ.get('VERIF_BUDGET_SCALE', '1'))
         budget = float(os.environ.get('VERIF_JOB_BUDGET', job.budget))
         r = engine.run_cell(job.fn, job.pre, budget * scale, per_path_timeout=job.per_path_timeout, extra_patches=patches)
